@@ -29,18 +29,33 @@ def from_k2(k):
     return z3.Extract(1, 1, k), z3.Extract(0, 0, k)
 
 
-def pauli_mul(p, q):
+def pauli_mul_arith(p, q):
+    """defining form: phase exponents add mod 4 (2-bit arithmetic)"""
     b0, b1, x, z = split(p); c0, c1, x2, z2 = split(q)
     k = k2(b0, b1) + k2(c0, c1) + z3.Concat(dotb(z, x2), ZERO)      # + 2*(z.x')  (mod 4)
     r0, r1 = from_k2(k)
     return [r0, r1] + [a ^ b for a, b in zip(x, x2)] + [a ^ b for a, b in zip(z, z2)]
 
 
-def pauli_inv(p):
+def pauli_inv_arith(p):
     b0, b1, x, z = split(p)
     k = -k2(b0, b1) + z3.Concat(dotb(x, z), ZERO)                   # (i^k X^x Z^z)^-1 = i^(-k + 2 x.z) X^x Z^z
     r0, r1 = from_k2(k)
     return [r0, r1] + list(x) + list(z)
+
+
+def pauli_mul(p, q):
+    """the same law with the mod-4 addition written out on bits (low bit xor, carry = and); proved equal to
+    pauli_mul_arith for every n under C08.spec_lemma.bit_form_is_mod4_arithmetic. This form keeps solver queries small."""
+    b0, b1, x, z = split(p); c0, c1, x2, z2 = split(q)
+    r1 = b1 ^ c1
+    r0 = b0 ^ c0 ^ (b1 & c1) ^ dotb(z, x2)
+    return [r0, r1] + [a ^ b for a, b in zip(x, x2)] + [a ^ b for a, b in zip(z, z2)]
+
+
+def pauli_inv(p):
+    b0, b1, x, z = split(p)
+    return [b0 ^ b1 ^ dotb(x, z), b1] + list(x) + list(z)           # -k mod 4 = (b0^b1, b1); + 2 x.z flips the high bit
 
 
 def pauli_commute(p, q):
